@@ -7302,6 +7302,17 @@ fn eval_break(env: &mut Env, expr_value_is_used: bool) {
     // Pop all the currently evaluating expressions until we are no
     // longer inside the innermost loop.
     while let Some((expr_state, expr)) = env.current_frame_mut().exprs_to_eval.pop() {
+        // A loop that hasn't started is a later statement of the
+        // block we're leaving, not the loop we're breaking out of.
+        let is_pending_loop = matches!(expr_state, ExpressionState::NotEvaluated)
+            && matches!(
+                expr.expr_,
+                Expression_::While(_, _) | Expression_::ForIn(_, _, _)
+            );
+        if is_pending_loop {
+            continue;
+        }
+
         match &expr.expr_ {
             Expression_::While(_, _) => {
                 env.current_frame_mut()
@@ -7352,10 +7363,13 @@ fn eval_continue(env: &mut Env) {
     // Pop all the currently evaluating expressions until we are back
     // at the loop.
     while let Some((expr_state, expr)) = env.current_frame_mut().exprs_to_eval.pop() {
+        // A loop that hasn't started is a later statement of the
+        // block we're leaving, not the loop we're continuing.
         if matches!(
             expr.expr_,
             Expression_::While(_, _) | Expression_::ForIn(_, _, _)
-        ) {
+        ) && !matches!(expr_state, ExpressionState::NotEvaluated)
+        {
             // TODO: this needs to clean up any items pushed to the value stack.
             // E.g. in `1 + continue`.
 
